@@ -932,15 +932,28 @@ class Index(IndexBase):
         key = key_from_container_key(self, key)
 
         if self._map is None and offset is None: # loc_is_iloc
+            size = self.__len__()
             if key.__class__ is np.ndarray:
                 if key.dtype == bool: #type: ignore
                     return key
                 if key.dtype != DTYPE_INT_DEFAULT: #type: ignore
                     # if key is an np.array, it must be an int or bool type
                     # could use tolist(), but we expect all keys to be integers
-                    return key.astype(DTYPE_INT_DEFAULT) #type: ignore
+                    key = key.astype(DTYPE_INT_DEFAULT) #type: ignore
+                if len(key) and (key.min() < 0 or key.max() >= size): #type: ignore
+                    raise KeyError(key)
             elif key.__class__ is slice:
+                for attr in (key.start, key.stop): #type: ignore
+                    if attr is not None and not 0 <= attr < size:
+                        raise LocInvalid('Invalid loc given in a slice', attr)
                 key = slice_to_inclusive_slice(key) #type: ignore
+            elif isinstance(key, list):
+                for k in key:
+                    if not isinstance(k, INT_TYPES) or not 0 <= k < size:
+                        raise KeyError(k)
+            elif not isinstance(key, INT_TYPES) or isinstance(key, (bool, np.bool_)) or not 0 <= key < size:
+                # a label that is not one of 0..len-1 (negative integers are positions, not labels)
+                raise KeyError(key)
             return key
 
         if self._map is None and offset is not None: # loc_is_iloc
